@@ -14,6 +14,7 @@ import (
 	"go/constant"
 	"go/token"
 	"go/types"
+	"math"
 	"sort"
 	"strings"
 )
@@ -45,6 +46,8 @@ const (
 	kString
 	kIface
 	kMap
+	kFloat // float32, carried as its IEEE-754 bit pattern (only math.Float32frombits / Float32bits are in the fragment)
+	kFunc  // func(integer) bool: a callback, rendered as a state-passing function
 )
 
 type tyInfo struct {
@@ -84,6 +87,13 @@ var fuelHints = map[string]string{
 	// every iteration returns or consumes at least the four octets of a header
 	"Unmarshal|len(rawData) != 0":                "(S (Z.to_nat (glen $rawData)))",
 	"CompoundPacket.Unmarshal|len(rawData) != 0": "(S (Z.to_nat (glen $rawData)))",
+	// b has 16 bits and iteration i clears bit i if it is set: b = 0 after at most 16 iterations
+	"NackPair.Range|b != 0": "17%nat",
+	// mantissa is a non-zero uint32 that doubles until bit 23 is set: at most 23 iterations (an uint32 that doubles 32
+	// times is zero, so a mantissa above 2^24 ends the loop as well... it cannot be: it has 18 bits)
+	"ReceiverEstimatedMaximumBitrate.Unmarshal|(mantissa & (mantissamax + 1)) == 0": "24%nat",
+	// bitrate is a finite float32 (<= 0x3FFFFp+63 after the clamp) that is halved until it is below 2^18
+	"ReceiverEstimatedMaximumBitrate.MarshalTo|bitrate >= (1 << 18)": "200%nat",
 }
 
 func classify(t types.Type) tyInfo {
@@ -125,6 +135,8 @@ func classify(t types.Type) tyInfo {
 			return tyInfo{k: kSint, width: 0}
 		case types.String, types.UntypedString:
 			return tyInfo{k: kString}
+		case types.Float32:
+			return tyInfo{k: kFloat, width: 32}
 		}
 	case *types.Array:
 		e := classify(u.Elem())
@@ -166,6 +178,14 @@ func classify(t types.Type) tyInfo {
 				return e
 			}
 		}
+	case *types.Signature:
+		// func(x T) bool with T an integer type: the callback shape of NackPair.Range
+		if u.Params().Len() == 1 && u.Results().Len() == 1 && !u.Variadic() {
+			a, r := classify(u.Params().At(0).Type()), classify(u.Results().At(0).Type())
+			if (a.k == kUint || a.k == kSint) && r.k == kBool {
+				return tyInfo{k: kFunc, elem: &a}
+			}
+		}
 	case *types.Interface:
 		if types.Identical(t, types.Universe.Lookup("error").Type()) {
 			return tyInfo{k: kError}
@@ -195,7 +215,9 @@ type fnSig struct {
 	recvCoq  string
 	noracles int
 	hasErr   bool
-	nres     int // non-error results
+	nres     int   // non-error results
+	cbIdx    int   // index of the callback parameter + 1, 0 = none
+	inout    []int // indices (in the flattened parameter list) of byte-slice parameters the function writes: returned after the receiver
 	resTy    []tyInfo
 }
 
@@ -277,7 +299,7 @@ func (t *translator) needStruct(name string) *structInfo {
 			continue
 		}
 		switch ti.k {
-		case kUint, kSint, kBool, kBytes, kString:
+		case kUint, kSint, kBool, kBytes, kString, kFloat:
 			s.fields = append(s.fields, fieldInfo{f.Name(), ti})
 		case kList:
 			if ti.elem.k == kStruct {
@@ -355,7 +377,7 @@ func (t *translator) needIface(name string) {
 
 func coqTy(ti tyInfo) string {
 	switch ti.k {
-	case kUint, kSint:
+	case kUint, kSint, kFloat:
 		return "Z"
 	case kBool:
 		return "bool"
@@ -375,7 +397,7 @@ func coqTy(ti tyInfo) string {
 
 func (t *translator) zero(ti tyInfo) string {
 	switch ti.k {
-	case kUint, kSint:
+	case kUint, kSint, kFloat:
 		return "0"
 	case kBool:
 		return "false"
@@ -470,6 +492,11 @@ type ctx struct {
 	aliases map[types.Object]alias // an interface or pointer variable that refers to another local's struct
 	dyn     map[types.Object]bool  // error variables declared with `var`: a bool "is non-nil" at run time
 	oracles *oracleSet
+	cb      types.Object // callback parameter of the function being translated
+	cbName  string
+	cbSt    types.Object   // synthetic variable: the callback's state, threaded through the function
+	inout   []types.Object // byte-slice parameters the function writes (returned to the caller, which binds them back)
+	closure []types.Object // translating a function literal: the captured variables it assigns (its state)
 }
 
 type oracleSet struct {
@@ -815,6 +842,11 @@ func (c *ctx) exprAs(e ast.Expr, to tyInfo) string {
 func (c *ctx) expr(e ast.Expr) string {
 	info := c.t.l.info
 	if tv, ok := info.Types[e]; ok && tv.Value != nil {
+		if classify(tv.Type).k == kFloat {
+			// a float32 constant: its bit pattern (the conversion of the constant to float32 is done here, by Go's own rules)
+			f, _ := constant.Float32Val(constant.ToFloat(tv.Value))
+			return fmt.Sprintf("%d", math.Float32bits(f))
+		}
 		switch tv.Value.Kind() {
 		case constant.Int:
 			return zlit(tv.Value)
@@ -968,6 +1000,16 @@ func (c *ctx) expr(e ast.Expr) string {
 			}
 			return "[" + strings.Join(parts, "; ") + "]"
 		}
+		if ti.k == kBytes {
+			var parts []string
+			for _, el := range x.Elts {
+				if _, isKV := el.(*ast.KeyValueExpr); isKV {
+					c.t.fail(x, "keyed slice literal")
+				}
+				parts = append(parts, fmt.Sprintf("byte_of_Z %s", c.expr(el)))
+			}
+			return "[" + strings.Join(parts, "; ") + "]"
+		}
 		if ti.k != kStruct {
 			c.t.fail(x, "composite literal of a non-struct type")
 		}
@@ -1033,6 +1075,31 @@ func (c *ctx) binary(x *ast.BinaryExpr) string {
 			}
 		}
 		c.t.fail(x, "comparison of error values")
+	}
+	if lt.k == kFloat {
+		a := c.expr(x.X)
+		switch op {
+		case token.LSS:
+			return fmt.Sprintf("(gf32_ltb %s %s)", a, c.expr(x.Y))
+		case token.LEQ:
+			return fmt.Sprintf("(gf32_leb %s %s)", a, c.expr(x.Y))
+		case token.GTR:
+			return fmt.Sprintf("(gf32_ltb %s %s)", c.expr(x.Y), a)
+		case token.GEQ:
+			return fmt.Sprintf("(gf32_leb %s %s)", c.expr(x.Y), a)
+		case token.QUO:
+			// division by a constant power of two 2^k, k >= 0: a scaling, exact unless the result is subnormal
+			if tv, ok := c.t.l.info.Types[x.Y]; ok && tv.Value != nil {
+				if iv, exact := constant.Int64Val(constant.ToInt(tv.Value)); exact && iv > 0 && iv&(iv-1) == 0 {
+					k := 0
+					for ; iv > 1; iv >>= 1 {
+						k++
+					}
+					return fmt.Sprintf("(gf32_scale %s (- %d))", a, k)
+				}
+			}
+		}
+		c.t.fail(x, "float32 operation %s in this form", op)
 	}
 	a := c.expr(x.X)
 	b := c.expr(x.Y)
@@ -1126,6 +1193,10 @@ func (c *ctx) call(x *ast.CallExpr) string {
 		}
 		to := classify(tv.Type)
 		from := c.typeOf(x.Args[0])
+		if inner := c.floorOfFloat32(x.Args[0]); inner != nil && to.k == kUint && to.width == 64 {
+			// uint(math.Floor(float64(x))), x a float32: float32 -> float64 is exact and so is Floor
+			return fmt.Sprintf("(gf32_floor_uint %s)", c.expr(inner))
+		}
 		a := c.expr(x.Args[0])
 		switch to.k {
 		case kUint:
@@ -1206,6 +1277,27 @@ func (c *ctx) call(x *ast.CallExpr) string {
 			c.t.fail(x, "builtin %s in this form", id.Name)
 		}
 	}
+	if id, ok := x.Fun.(*ast.Ident); ok && c.cb != nil && c.objOf(id) == c.cb {
+		// f(x): the callback runs on the threaded state
+		a := c.exprAs(x.Args[0], *classify(c.cb.Type()).elem)
+		st, r := c.fresh("st"), c.tmp()
+		c.pending = append(c.pending, fmt.Sprintf("let '(%s, %s) := %s %s %s in", st, r, c.cbName, c.vars[c.cbSt], a))
+		c.vars[c.cbSt] = st
+		return r
+	}
+	if se, ok := x.Fun.(*ast.SelectorExpr); ok {
+		if pk, ok := se.X.(*ast.Ident); ok {
+			if pn, isPkg := c.objOf(pk).(*types.PkgName); isPkg {
+				switch pn.Imported().Path() + "." + se.Sel.Name {
+				case "math.Float32frombits", "math.Float32bits":
+					// a float32 is carried as its bit pattern: both conversions are the identity
+					return c.expr(x.Args[0])
+				case "bytes.Equal":
+					return fmt.Sprintf("(bytes_eqb %s %s)", c.expr(x.Args[0]), c.expr(x.Args[1]))
+				}
+			}
+		}
+	}
 	if name, ok := isBigEndian(x.Fun); ok {
 		if k, put, ok := beWidth(name); ok && !put {
 			return c.bind(fmt.Sprintf("gbe_get %d %s", k, c.expr(x.Args[0])))
@@ -1227,14 +1319,44 @@ func (c *ctx) call(x *ast.CallExpr) string {
 	if sig == nil {
 		c.t.fail(x, "call of %s (outside the package or the fragment)", types.ExprString(x.Fun))
 	}
-	if sig.hasErr || sig.ptrRecv {
-		c.t.fail(x, "call of %s in expression position (it returns an error or updates its receiver)", sig.key)
+	if sig.hasErr || sig.ptrRecv || len(sig.inout) > 0 {
+		c.t.fail(x, "call of %s in expression position (it returns an error or updates its receiver or an argument)", sig.key)
 	}
 	code := fmt.Sprintf("(%s %s)", sig.coq, c.args(x, recv))
 	if sig.pure {
 		return code
 	}
 	return c.bind(code[1 : len(code)-1])
+}
+
+// floorOfFloat32 recognises math.Floor(float64(x)) with x of type float32 and returns x
+func (c *ctx) floorOfFloat32(e ast.Expr) ast.Expr {
+	call, ok := e.(*ast.CallExpr)
+	if !ok || len(call.Args) != 1 {
+		return nil
+	}
+	se, ok := call.Fun.(*ast.SelectorExpr)
+	if !ok || se.Sel.Name != "Floor" {
+		return nil
+	}
+	if pk, ok := se.X.(*ast.Ident); !ok {
+		return nil
+	} else if pn, isPkg := c.objOf(pk).(*types.PkgName); !isPkg || pn.Imported().Path() != "math" {
+		return nil
+	}
+	conv, ok := call.Args[0].(*ast.CallExpr)
+	if !ok || len(conv.Args) != 1 {
+		return nil
+	}
+	if tv, ok := c.t.l.info.Types[conv.Fun]; !ok || !tv.IsType() {
+		return nil
+	} else if b, isB := tv.Type.Underlying().(*types.Basic); !isB || b.Kind() != types.Float64 {
+		return nil
+	}
+	if c.typeOf(conv.Args[0]).k != kFloat {
+		return nil
+	}
+	return conv.Args[0]
 }
 
 // ---- statements ----
@@ -1421,6 +1543,18 @@ func (c *ctx) matchCall(call *ast.CallExpr, sig *fnSig, recv ast.Expr, okK func(
 		recvTmp = c.tmp()
 		pat = append(pat, recvTmp)
 	}
+	var ioTmp []string
+	var ioArg []ast.Expr
+	for _, ix := range sig.inout {
+		a := call.Args[ix]
+		if id, isId := a.(*ast.Ident); !isId || !c.owned[c.objOf(id)] {
+			c.t.fail(call, "argument written by %s is not a buffer the caller allocated", sig.key)
+		}
+		n := c.tmp()
+		pat = append(pat, n)
+		ioTmp = append(ioTmp, n)
+		ioArg = append(ioArg, a)
+	}
 	for i := 0; i < sig.nres; i++ {
 		n := c.tmp()
 		pat = append(pat, n)
@@ -1437,10 +1571,17 @@ func (c *ctx) matchCall(call *ast.CallExpr, sig *fnSig, recv ast.Expr, okK func(
 	b.WriteString(ind(c.depth) + fmt.Sprintf("| Ok %s =>\n", patStr))
 	d := c.clone()
 	d.depth = c.depth + 1
+	var bindBack func(i int, d *ctx) string
+	bindBack = func(i int, d *ctx) string {
+		if i == len(ioTmp) {
+			return okK(d, names)
+		}
+		return d.assignTo(ioArg[i], ioTmp[i], func(d2 *ctx) string { return bindBack(i+1, d2) })
+	}
 	if sig.ptrRecv {
-		b.WriteString(d.assignTo(recv, recvTmp, func(d2 *ctx) string { return okK(d2, names) }))
+		b.WriteString(d.assignTo(recv, recvTmp, func(d2 *ctx) string { return bindBack(0, d2) }))
 	} else {
-		b.WriteString(okK(d, names))
+		b.WriteString(bindBack(0, d))
 	}
 	if sig.hasErr {
 		e := c.clone()
@@ -1449,6 +1590,9 @@ func (c *ctx) matchCall(call *ast.CallExpr, sig *fnSig, recv ast.Expr, okK func(
 			if id := e.rootIdent(recv); id != nil {
 				e.poison[e.objOf(id)] = true
 			}
+		}
+		for _, a := range ioArg {
+			e.poison[e.objOf(a.(*ast.Ident))] = true
 		}
 		b.WriteString(ind(c.depth) + "| Err =>\n")
 		b.WriteString(errK(e))
@@ -1854,8 +1998,22 @@ func (c *ctx) isErrValue(e ast.Expr) (isNil bool, ok bool) {
 
 func (c *ctx) result(vals []string) string {
 	var parts []string
+	if c.closure != nil {
+		// a function literal returns its state (the captured variables it assigns) and its result
+		var st []string
+		for _, o := range c.closure {
+			st = append(st, c.vars[o])
+		}
+		parts = append(parts, tupleOf(st))
+	}
+	if c.cbSt != nil {
+		parts = append(parts, c.vars[c.cbSt])
+	}
 	if c.sig.ptrRecv {
 		parts = append(parts, c.vars[c.recv])
+	}
+	for _, o := range c.inout {
+		parts = append(parts, c.vars[o])
 	}
 	parts = append(parts, vals...)
 	switch len(parts) {
@@ -1945,6 +2103,9 @@ func btoi(b bool) int {
 }
 
 func (c *ctx) okWrap(v string) string {
+	if c.closure != nil {
+		return v
+	}
 	if c.direct {
 		return "Ok (inr " + v + ")"
 	}
@@ -2079,8 +2240,11 @@ func (c *ctx) stmts(list []ast.Stmt, k kont) string {
 			}
 			c.t.fail(x, "copy in this form")
 		}
+		if sig, recv := c.calleeOrNil(call); sig != nil && sig.cbIdx > 0 {
+			return c.cbCall(call, sig, recv, cont)
+		}
 		if sig, recv := c.calleeOrNil(call); sig != nil {
-			if sig.hasErr || sig.ptrRecv {
+			if sig.hasErr || sig.ptrRecv || len(sig.inout) > 0 {
 				var lhs []ast.Expr
 				for i := 0; i < sig.nres+btoi(sig.hasErr); i++ {
 					lhs = append(lhs, ast.NewIdent("_"))
@@ -2094,6 +2258,142 @@ func (c *ctx) stmts(list []ast.Stmt, k kont) string {
 	}
 	c.t.fail(s, "statement form %T", s)
 	return ""
+}
+
+// cbCall: `x.M(func(a T) bool { ... })` as a statement. The function literal becomes `fun st a => (st', result)` where the
+// state is the tuple of captured variables the literal assigns; the callee returns the final state, which is bound back
+// to those variables. The literal's body has to stay inside the pure fragment (no loops, no panicking operations).
+func (c *ctx) cbCall(call *ast.CallExpr, sig *fnSig, recv ast.Expr, cont kont) string {
+	lit, ok := call.Args[sig.cbIdx-1].(*ast.FuncLit)
+	if !ok {
+		c.t.fail(call, "callback argument that is not a function literal")
+	}
+	info := c.t.l.info
+	// captured variables the literal assigns
+	seen := map[types.Object]bool{}
+	var state []types.Object
+	note := func(e ast.Expr) {
+		id := c.rootIdent(e)
+		if id == nil {
+			c.t.fail(e, "assignment target in a function literal")
+		}
+		o := c.objOf(id)
+		if _, outer := c.vars[o]; outer && !seen[o] {
+			seen[o] = true
+			state = append(state, o)
+		}
+	}
+	ast.Inspect(lit.Body, func(n ast.Node) bool {
+		switch x := n.(type) {
+		case *ast.AssignStmt:
+			if x.Tok != token.DEFINE {
+				for _, l := range x.Lhs {
+					note(l)
+				}
+			}
+		case *ast.IncDecStmt:
+			note(x.X)
+		case *ast.FuncLit:
+			if x != lit {
+				c.t.fail(x, "nested function literal")
+			}
+		case *ast.ForStmt, *ast.RangeStmt, *ast.GoStmt, *ast.DeferStmt:
+			c.t.fail(n, "statement form %T in a function literal", n)
+		}
+		return true
+	})
+	sort.Slice(state, func(i, j int) bool { return state[i].Name() < state[j].Name() })
+	for _, o := range state {
+		if _, isView := c.views[o]; isView || c.poison[o] || o == c.recv {
+			c.t.fail(lit, "function literal assigns %s, which is a view, unavailable or the receiver", o.Name())
+		}
+		if recv != nil {
+			if id := c.rootIdent(recv); id != nil && c.objOf(id) == o {
+				c.t.fail(lit, "function literal assigns the receiver of the call")
+			}
+		}
+	}
+	// the other arguments (evaluated before the call)
+	var parts []string
+	if recv != nil {
+		parts = append(parts, c.expr(recv))
+	}
+	for i, a := range call.Args {
+		if i == sig.cbIdx-1 {
+			var st []string
+			for _, o := range state {
+				st = append(st, c.vars[o])
+			}
+			parts = append(parts, tupleOf(st))
+			continue
+		}
+		parts = append(parts, c.expr(a))
+	}
+	// the literal
+	d := c.clone()
+	d.counter = c.counter
+	d.closure = state
+	if len(state) == 0 {
+		d.closure = []types.Object{}
+	}
+	d.cb, d.cbSt, d.recv, d.results, d.loops, d.direct = nil, nil, nil, nil, nil, false
+	d.sig = &fnSig{key: c.sig.key + ".func", coq: c.sig.coq + "_func", nres: 1, resTy: []tyInfo{{k: kBool}}}
+	d.depth = c.depth + 2
+	var stNames, stTys []string
+	for _, o := range state {
+		n := d.fresh(o.Name())
+		d.vars[o] = n
+		stNames = append(stNames, n)
+		stTys = append(stTys, coqTy(classify(o.Type())))
+	}
+	ft := lit.Type.Params.List[0]
+	arg := d.fresh(ft.Names[0].Name)
+	d.vars[info.Defs[ft.Names[0]]] = arg
+	mono, nl := c.t.usedMono, len(c.t.lifted)
+	c.t.usedMono = false
+	body := d.stmts(lit.Body.List, func(e *ctx) string {
+		c.t.fail(lit, "control reaches the end of a function literal")
+		return ""
+	})
+	if c.t.usedMono || len(c.t.lifted) != nl {
+		c.t.fail(lit, "function literal outside the pure fragment")
+	}
+	c.t.usedMono = mono
+	stTy := "unit"
+	if len(stTys) > 0 {
+		stTy = strings.Join(stTys, " * ")
+	}
+	open := ""
+	if len(state) > 1 {
+		open = fmt.Sprintf("let '%s := cst in ", tupleOf(stNames))
+	} else if len(state) == 1 {
+		open = fmt.Sprintf("let %s := cst in ", stNames[0])
+	}
+	fun := fmt.Sprintf("(fun (cst : %s) (%s : Z) => %s\n%s%s)", stTy, arg, open, strings.TrimRight(body, "\n"), ind(c.depth+1))
+	callText := fmt.Sprintf("%s (%s) %s", sig.coq, stTy, fun)
+	for _, p := range parts {
+		callText += " " + p
+	}
+	res := c.fresh("cst")
+	if sig.pure {
+		c.pending = append(c.pending, fmt.Sprintf("let %s := %s in", res, callText))
+	} else {
+		c.bindAs(res, callText)
+	}
+	if len(state) == 1 {
+		n := c.fresh(state[0].Name())
+		c.pending = append(c.pending, fmt.Sprintf("let %s := %s in", n, res))
+		c.vars[state[0]] = n
+	} else if len(state) > 1 {
+		var ns []string
+		for _, o := range state {
+			n := c.fresh(o.Name())
+			ns = append(ns, n)
+			c.vars[o] = n
+		}
+		c.pending = append(c.pending, fmt.Sprintf("let '%s := %s in", tupleOf(ns), res))
+	}
+	return wrap(c.take(), cont(c), c.depth)
 }
 
 // ---- interface values: type switches and comma-ok assertions are matches on the sum ----
@@ -2250,9 +2550,13 @@ func (c *ctx) scopeVars() []scopeVar {
 		if _, isAlias := c.aliases[o]; isAlias {
 			continue
 		}
+		if o == c.cbSt {
+			out = append(out, scopeVar{o, n, "CbSt"})
+			continue
+		}
 		ti := classify(o.Type())
 		switch ti.k {
-		case kUint, kSint, kBool, kBytes, kStruct, kList, kString, kIface, kMap:
+		case kUint, kSint, kBool, kBytes, kStruct, kList, kString, kIface, kMap, kFloat:
 			out = append(out, scopeVar{o, n, coqTy(ti)})
 		case kError:
 			if c.dyn[o] {
@@ -2338,6 +2642,9 @@ func (c *ctx) fuelFor(cond ast.Expr) string {
 		lo, hi, strict = be.Y, be.X, false
 	default:
 		c.t.fail(cond, "loop condition of a form without an obvious bound")
+	}
+	if c.typeOf(lo).k == kFloat || c.typeOf(hi).k == kFloat {
+		c.t.fail(cond, "loop bounded by a float comparison (needs a fuel hint)")
 	}
 	d := c.clone()
 	d.counter = c.counter
@@ -2665,6 +2972,51 @@ func (t *translator) bodyMutates(body *ast.BlockStmt, obj types.Object) bool {
 
 // ---- does a pointer-receiver method write through its receiver? ----
 
+// paramWritten: the body stores into the byte slice parameter [obj] (element assignment, BigEndian.Put*, copy into it)
+func (t *translator) paramWritten(body *ast.BlockStmt, obj types.Object) bool {
+	root := func(e ast.Expr) types.Object {
+		for {
+			switch x := e.(type) {
+			case *ast.ParenExpr:
+				e = x.X
+			case *ast.SliceExpr:
+				e = x.X
+			case *ast.IndexExpr:
+				e = x.X
+			case *ast.Ident:
+				if o := t.l.info.Uses[x]; o != nil {
+					return o
+				}
+				return t.l.info.Defs[x]
+			default:
+				return nil
+			}
+		}
+	}
+	found := false
+	ast.Inspect(body, func(n ast.Node) bool {
+		switch x := n.(type) {
+		case *ast.AssignStmt:
+			for _, l := range x.Lhs {
+				if ie, ok := l.(*ast.IndexExpr); ok && root(ie) == obj {
+					found = true
+				}
+			}
+		case *ast.CallExpr:
+			if name, ok := isBigEndian(x.Fun); ok {
+				if _, put, ok := beWidth(name); ok && put && len(x.Args) > 0 && root(x.Args[0]) == obj {
+					found = true
+				}
+			}
+			if id, ok := x.Fun.(*ast.Ident); ok && id.Name == "copy" && len(x.Args) == 2 && root(x.Args[0]) == obj {
+				found = true
+			}
+		}
+		return !found
+	})
+	return found
+}
+
 func (t *translator) mutatesRecv(key string) bool {
 	if t.mutates == nil {
 		t.mutates = map[string]int{}
@@ -2855,8 +3207,23 @@ func (t *translator) translate(key string) {
 			}
 			params = append(params, fmt.Sprintf("(%s : %s)", name, pty))
 		}
-		for _, p := range fd.Type.Params.List {
+		flat := 0
+		sig.inout = nil
+		for pi, p := range fd.Type.Params.List {
 			ti := classify(t.l.info.TypeOf(p.Type))
+			if ti.k == kFunc {
+				if len(p.Names) != 1 || p.Names[0].Name == "_" || c.cb != nil || sig.hasErr || sig.ptrRecv || sig.nres != 0 {
+					t.fail(p, "callback parameter in this position")
+				}
+				c.cb = t.l.info.Defs[p.Names[0]]
+				c.cbName = c.fresh(p.Names[0].Name)
+				c.cbSt = types.NewVar(token.NoPos, t.l.pkg, "cbstate", types.Typ[types.Invalid])
+				c.vars[c.cbSt] = c.fresh("st")
+				params = append(params, fmt.Sprintf("(%s : CbSt)", c.vars[c.cbSt]))
+				sig.cbIdx = pi + 1
+				flat++
+				continue
+			}
 			if ti.k == kOther || ti.k == kError {
 				t.fail(p, "parameter type %s outside the fragment", types.ExprString(p.Type))
 			}
@@ -2866,8 +3233,16 @@ func (t *translator) translate(key string) {
 			for _, n := range p.Names {
 				name := c.fresh(n.Name)
 				if n.Name != "_" {
-					c.vars[t.l.info.Defs[n]] = name
+					o := t.l.info.Defs[n]
+					c.vars[o] = name
+					if ti.k == kBytes && t.paramWritten(fd.Body, o) {
+						// the caller's buffer is written: the function owns it for its duration and hands it back
+						c.owned[o] = true
+						c.inout = append(c.inout, o)
+						sig.inout = append(sig.inout, flat)
+					}
 				}
+				flat++
 				params = append(params, fmt.Sprintf("(%s : %s)", name, coqTy(ti)))
 			}
 		}
@@ -2883,14 +3258,25 @@ func (t *translator) translate(key string) {
 					} else if ti.k != kOther {
 						nm := c.fresh(n.Name)
 						c.vars[o] = nm
-						namedInit += fmt.Sprintf("  let %s := %s in\n", nm, t.zero(ti))
+						if ti.k == kBytes {
+							// an empty list that nothing may use before it is overwritten needs its type spelled out
+							namedInit += fmt.Sprintf("  let %s : %s := %s in\n", nm, coqTy(ti), t.zero(ti))
+						} else {
+							namedInit += fmt.Sprintf("  let %s := %s in\n", nm, t.zero(ti))
+						}
 					}
 				}
 			}
 		}
 		var rts []string
+		if c.cb != nil {
+			rts = append(rts, "CbSt")
+		}
 		if sig.ptrRecv {
 			rts = append(rts, sig.recvCoq)
+		}
+		for range c.inout {
+			rts = append(rts, "bytes")
 		}
 		for _, r := range sig.resTy {
 			rts = append(rts, coqTy(r))
@@ -2917,7 +3303,13 @@ func (t *translator) translate(key string) {
 		sig.noracles = len(c.oracles.order)
 		pos := t.l.fset.Position(fd.Pos())
 		head := fmt.Sprintf("(* %s  func %s *)\nDefinition %s %s : %s :=\n", shortFile(pos.Filename), key, sig.coq, strings.Join(params, " "), rt)
-		return strings.Join(t.lifted, "") + head + namedInit + strings.TrimRight(body, "\n") + ".\n\n", t.usedMono
+		code := strings.Join(t.lifted, "") + head + namedInit + strings.TrimRight(body, "\n") + ".\n\n"
+		if c.cb != nil {
+			// the callback and its state type are section variables: after the section every definition that uses them takes
+			// them as its first arguments
+			code = fmt.Sprintf("Section S_%s.\nVariable CbSt : Type.\nVariable %s : CbSt -> Z -> CbSt * bool.\n\n%sEnd S_%s.\n\n", sig.coq, c.cbName, code, sig.coq)
+		}
+		return code, t.usedMono
 	}
 	code, mono := gen(false)
 	if !mono && !sig.hasErr {
@@ -2942,7 +3334,7 @@ func shortFile(p string) string {
 
 func (t *translator) showField(ti tyInfo, x string) string {
 	switch ti.k {
-	case kUint, kSint:
+	case kUint, kSint, kFloat:
 		return "zn " + x
 	case kBool:
 		return "sbool " + x
@@ -2960,7 +3352,7 @@ func (t *translator) showField(ti tyInfo, x string) string {
 
 func (t *translator) readField(ti tyInfo) string {
 	switch ti.k {
-	case kUint, kSint:
+	case kUint, kSint, kFloat:
 		return "rz"
 	case kBool:
 		return "as_bool"
@@ -3151,7 +3543,10 @@ func (t *translator) emitCodecs(b *bytes.Buffer) {
 	b.WriteString("\n")
 }
 
-func genFuncs(l *loaded, want []string) []byte {
+func genFuncs(l *loaded, want []string) []byte { return genFuncsMod(l, want, "GoSrc", "") }
+
+// genFuncsMod: module name and suffix of the three summary lists
+func genFuncsMod(l *loaded, want []string, mod, suffix string) []byte {
 	t := newTranslator(l)
 	for _, k := range want {
 		t.translate(k)
@@ -3159,13 +3554,13 @@ func genFuncs(l *loaded, want []string) []byte {
 	var b bytes.Buffer
 	b.WriteString(hdr)
 	b.WriteString("(* Functions of the package rendered as Gallina by srcgen/trans.go (see Lib/GoSem.v for the semantics of the\n   primitives).  Equivalence with the hand-written model is proved in Proofs/SourceEquiv.v. *)\n")
-	b.WriteString("From Coq Require Import List ZArith Bool String.\nFrom RTCP Require Import Lib.Base Lib.Sval Lib.GoSem Check.GoOpaque.\nImport ListNotations.\nLocal Open Scope Z_scope.\n\nModule GoSrc.\n\n")
+	b.WriteString("From Coq Require Import List ZArith Bool String.\nFrom RTCP Require Import Lib.Base Lib.Sval Lib.GoSem Lib.GoFloat Check.GoOpaque.\nImport ListNotations.\nLocal Open Scope Z_scope.\n\nModule " + mod + ".\n\n")
 	t.emitStructs(&b)
 	b.Write(t.body.Bytes())
 	t.emitCodecs(&b)
-	b.WriteString("End GoSrc.\n\n")
+	b.WriteString("End " + mod + ".\n\n")
 	sort.Strings(t.emitted)
-	b.WriteString("Definition translated_functions : list string := [")
+	b.WriteString("Definition translated_functions" + suffix + " : list string := [")
 	for i, k := range t.emitted {
 		if i > 0 {
 			b.WriteString("; ")
@@ -3180,7 +3575,7 @@ func genFuncs(l *loaded, want []string) []byte {
 			writers = append(writers, k)
 		}
 	}
-	b.WriteString("Definition receiver_writing_methods : list string := [")
+	b.WriteString("Definition receiver_writing_methods" + suffix + " : list string := [")
 	for i, k := range writers {
 		if i > 0 {
 			b.WriteString("; ")
@@ -3188,7 +3583,7 @@ func genFuncs(l *loaded, want []string) []byte {
 		b.WriteString(coqString(k))
 	}
 	b.WriteString("]%string.\n")
-	b.WriteString("Definition untranslatable_functions : list (string * string * string) := [")
+	b.WriteString("Definition untranslatable_functions" + suffix + " : list (string * string * string) := [")
 	for i, f := range t.failed {
 		if i > 0 {
 			b.WriteString(";\n  ")
